@@ -35,4 +35,5 @@ def run(prog: Program, col: Collector, tier: str, refs: Optional[Refs] = None, c
     # the (logaddexp, add) semiring with -inf weights: its sum and the log-space einsum kernel must be exact at -inf and NaN-free
     from . import numerics
     numerics.run(prog, col, refs, cat, rule_log="R08.9", rule_safe=None)
+    algebra.r_operand_multiplicity(prog, col, refs, cat, "R08.10")
     return col
